@@ -140,6 +140,79 @@ def clause_b(facts, rep, tier):
             rep.check(bad_err is None, 'E3.compare-coverage', f.qn, 'both operands are read at the same offsets; equal buffers compare equal', f.loc, str(bad_err), facts.config)
 
 
+def eval_map_order(f, facts):
+    """evaluate the lookup-map comparator (sv/minterp.py over its CFG; string-view accessors and the three-way compare,
+    which has its own rules, are answered from the model) on key pairs that differ at the first / an inner / the last
+    byte or are prefixes of one another, with bytes on both sides of 0x80, for lengths on both sides of 16 and 32.
+    The answer must be plain unsigned lexicographic order: a strict weak order that does not depend on key length."""
+    from ..minterp import Interp, Unsupported, UndefinedBehaviour, wrap
+    if len(f.params) != 2:
+        raise AnalysisBroken('C14: map comparator with %d parameters' % len(f.params))
+    ids = [p_['id'] for p_ in f.params]
+    alpha = [0x00, 0x41, 0x7f, 0x80, 0xff]
+    keys = set()
+    for L in (0, 1, 2, 7, 15, 16, 17, 31, 32, 33, 40):
+        base = bytes([0x61] * L)
+        keys.add(base)
+        for pos in sorted(set([0, L // 2, L - 1])):
+            if 0 <= pos < L:
+                for b in alpha:
+                    k = bytearray(base)
+                    k[pos] = b
+                    keys.add(bytes(k))
+    keys = sorted(keys)
+    strs = {}
+
+    def hook(e, args, env, members):
+        name = e.get('cname')
+        obj = strip(e.get('obj')) if e.get('obj') is not None else None
+        while obj is not None and obj.get('k') == 'cast':
+            obj = strip(obj['e'])
+        S = strs.get(obj.get('id')) if obj is not None and obj.get('k') == 'ref' else None
+        if S is None and e.get('opcall') and e.get('args'):
+            o2 = strip(e['args'][0])
+            while o2 is not None and o2.get('k') == 'cast':
+                o2 = strip(o2['e'])
+            if o2 is not None and o2.get('k') == 'ref':
+                S = strs.get(o2.get('id'))
+        if S is not None:
+            if name in ('size', 'length'):
+                return len(S)
+            if name == 'empty':
+                return int(len(S) == 0)
+            if name == 'data':
+                return ('ptr', S, 0)
+            if name in ('operator[]', 'at'):
+                i = args[-1]
+                if not 0 <= i < len(S):
+                    raise UndefinedBehaviour('key byte %d of %d read' % (i, len(S)))
+                return wrap(S[i], e.get('t', 'char').replace('const ', '').replace('&', '').strip() or 'char')
+            raise Unsupported('string view accessor %s' % name)
+        if name in ('InlinedMemcmp', 'memcmp', '__builtin_memcmp') and len(args) == 3 and all(isinstance(a, tuple) for a in args[:2]):
+            a, b, k = args
+            x, y = a[1][a[2]:a[2] + k], b[1][b[2]:b[2] + k]
+            if len(x) < k or len(y) < k:
+                raise UndefinedBehaviour('three-way compare over %d bytes of keys with %d / %d bytes' % (k, len(a[1]), len(b[1])))
+            return (x > y) - (x < y)
+        return None
+    bad = None
+    cnt = 0
+    try:
+        for a in keys:
+            for b in keys:
+                strs[ids[0]], strs[ids[1]] = a, b
+                r = Interp(f, facts, call_hook=hook).run({ids[0]: ('sv', a), ids[1]: ('sv', b)}, {})[0]
+                cnt += 1
+                if bool(r) != (a < b):
+                    bad = 'Less(%s, %s) = %s although the unsigned byte order says %s' % (a.hex() or "''", b.hex() or "''", bool(r), a < b)
+                    return bad, cnt
+    except UndefinedBehaviour as ex:
+        return 'undefined behaviour: %s' % ex, cnt
+    except Unsupported as ex:
+        raise AnalysisBroken('C14: the map comparator cannot be evaluated: %s' % ex)
+    return bad, cnt
+
+
 def clause_c(facts, rep):
     n = 0
     seen = set()
@@ -170,11 +243,9 @@ def clause_c(facts, rep):
             seen.add(f.loc)
             rep.fn(f)
             n += 1
-            txt = ' ; '.join(show(s) for _, _, s in f.stmts())
-            has_min = any(e.get('k') == 'call' and e.get('cname') == 'min' for _, _, _, e in f.walk())
-            cmp_len = any(e.get('k') == 'call' and e.get('cname') == 'InlinedMemcmp' and strip(e['args'][2]).get('name') == 'len' for _, _, _, e in f.walk())
-            tie = any(e.get('k') == 'bin' and e['op'] == '<' and strip(e['l']).get('name') == 'n1' and strip(e['r']).get('name') == 'n2' for _, _, _, e in f.walk())
-            rep.check(has_min and cmp_len and tie, 'E2.map-order', f.qn, 'compares min(n1, n2) bytes and breaks ties on length', f.loc, txt[:200], facts.config)
+            bad, cnt = eval_map_order(f, facts)
+            rep.check(bad is None, 'E2.map-order', f.qn, 'the map comparator equals unsigned lexicographic byte order (%d key pairs evaluated)' % cnt, f.loc,
+                      bad or '', facts.config)
     return n
 
 
